@@ -27,7 +27,8 @@ META = {
         ' (nomut) no operator core, parser, wrapper or shared helper '
         ' (replace_empty, ...) writes in place to an operand it received, so '
         'evaluating an operator cannot change what the next one sees.'
-        ' (memo) no memoised helper on an operator path - lru_cache or hand-written dict keyed by raw values - depends on whether a value is a logical or a number.'),
+        ' (memo) no memoised helper on an operator path - lru_cache or hand-written dict keyed by raw values - depends on whether a value is a logical or a number.'
+        ' (pow, math.pow) a float power written with math.pow is guarded like `**`: a negative base is tested or the ValueError is caught in the core.'),
     'not_decided': (
         'Coercion of numeric text and blanks, the display form used by &, '
         'case-insensitive text comparison and numeric values.'),
